@@ -36,12 +36,16 @@ type Harness struct {
 	File     string            `json:"file"` // harness file
 	Tier     string            `json:"tier"` // quick (runs in both) | thorough
 	Mode     string            `json:"mode"` // fp | real
-	Shard    string            `json:"shard,omitempty"`
-	ShardN   int               `json:"shard_n,omitempty"`
+	Shards   []ShardDim        `json:"shards,omitempty"`
 	Opts     map[string]string `json:"opts"`
 	Env      []string          `json:"env,omitempty"` // replace groups
 	Replay   string            `json:"replay"`        // native | interp
 	Note     string            `json:"note,omitempty"`
+}
+
+type ShardDim struct {
+	Name string `json:"name"`
+	N    int    `json:"n"`
 }
 
 type ReplaceDirective struct {
@@ -112,9 +116,7 @@ func discover() ([]Harness, map[string]*PkgHarness, error) {
 					case "mode":
 						pending.Mode = v
 					case "shard":
-						j := strings.Index(v, ":")
-						pending.Shard = v[:j]
-						pending.ShardN, _ = strconv.Atoi(v[j+1:])
+						pending.Opts["shard"] = v
 					case "env":
 						pending.Env = strings.Split(v, ",")
 					case "replay":
@@ -149,7 +151,11 @@ func discover() ([]Harness, map[string]*PkgHarness, error) {
 				if pending.Replay == "" {
 					pending.Replay = "auto"
 				}
-				hs = append(hs, *pending)
+				for _, pr := range strings.Split(pending.Prop, "+") {
+					h := *pending
+					h.Prop = pr
+					hs = append(hs, h)
+				}
 				pending = nil
 			case strings.HasPrefix(l, "//"):
 			default:
@@ -183,7 +189,25 @@ func (h *Harness) optInt(tier, k string, def int) int {
 	return v
 }
 
-var engineOpts = map[string]bool{"paths": true, "loop": true, "instr": true, "maxconc": true, "solver": true, "timeout": true,
+// shards returns the shard dimensions for the tier ("shard=a:2,b:3", overridable per tier).
+func (h *Harness) shards(tier string) []ShardDim {
+	var out []ShardDim
+	v := h.opt(tier, "shard", "")
+	if v == "" {
+		return nil
+	}
+	for _, part := range strings.Split(v, ",") {
+		j := strings.Index(part, ":")
+		if j < 0 {
+			continue
+		}
+		n, _ := strconv.Atoi(part[j+1:])
+		out = append(out, ShardDim{part[:j], n})
+	}
+	return out
+}
+
+var engineOpts = map[string]bool{"shard": true, "paths": true, "loop": true, "instr": true, "maxconc": true, "solver": true, "timeout": true,
 	"symclock": true, "fpconv": true, "expect": true, "maxviol": true, "xcheck": true}
 
 // params are the non-engine options handed to the harness through vrtParam.
